@@ -226,11 +226,12 @@ class GenTr(FxTr):
         """the locals an iteration of `for` statement node (re)binds: targets, the hidden rest, everything assigned in the
         body.  None of them may be read before it is written by an iteration or after the loop (the generated fix closes over
         the values at loop entry): Unsupported otherwise"""
-        bound = {self.hidden(node)}
+        hid = {self.hidden(n) for n in ast.walk(node) if isinstance(n, ast.For)}      # its own and those of nested loops
+        bound = set(hid)
         for n in ast.walk(node):
             if isinstance(n, ast.Name) and isinstance(n.ctx, ast.Store):
                 bound.add(n.id)
-        carried = (bound - {self.hidden(node)}) & self.names_after([node] + list(rest))
+        carried = (bound - hid) & self.names_after([node] + list(rest))
         if carried:
             raise Unsupported(f"the for loop at line {node.lineno} carries {sorted(carried)} from one iteration to the next")
         return bound
@@ -560,14 +561,17 @@ class GenTr(FxTr):
         node = ast.If(test=w.test, body=list(w.body) + [_Back(w)], orelse=[])
         return self.do_if(node, rest, env2, k, force_split=True)
 
-    def iterable(self, e, env):
-        """-> (Coq term of the list, [element types]) for a listed iterable"""
+    def iterable(self, e, env, types_only=False):
+        """-> (Coq term of the list, [element types]) for a listed iterable (types_only: the loop is resumed over the rest of
+        its table, the iterable expression is not evaluated again)"""
         for (pat, param, tys) in self.iterables:
             binds = {}
             if _match(pat, e, binds):
                 if param is None:                            # range(_1)
                     if sorted(binds) != ["_1"]:
                         raise Unsupported("range pattern needs exactly one hole")
+                    if types_only:
+                        return None, list(tys)
                     return f"(gen_range {self.hole(binds['_1'], 'Z', env)})", list(tys)
                 if binds:
                     raise Unsupported("holes in a table iterable")
@@ -580,7 +584,7 @@ class GenTr(FxTr):
         loop is resumed from a program point inside it"""
         if s.orelse:
             raise Unsupported("for ... else")
-        lterm, tys = self.iterable(s.iter, env)
+        lterm, tys = self.iterable(s.iter, env, types_only=over is not None)
         if over is not None:
             lterm = over
         names = [s.target] if isinstance(s.target, ast.Name) else list(s.target.elts) if isinstance(s.target, ast.Tuple) else None
